@@ -51,6 +51,7 @@ type c01Spec struct {
 	EndAt      int       `json:"end_ms"`
 	PostCalls  int       `json:"post_calls"`
 	Storm      int       `json:"storm,omitempty"` // client side: this many peer requests are parked in handlers when the reader hits EOF
+	Modern     bool      `json:"modern,omitempty"` // client side: the session is negotiated at 2026-07-28 (server/discover); post-termination calls include Subscribe
 }
 
 func genC01(r *vh.Rand) c01Spec {
@@ -103,6 +104,7 @@ func genC01(r *vh.Rand) c01Spec {
 	s.Waiters = r.Intn(3)
 	s.EndAt = horizon + 14
 	s.PostCalls = r.Range(1, 3)
+	s.Modern = s.Side == "client" && s.Storm == 0 && r.Chance(1, 3)
 	return s
 }
 
@@ -181,6 +183,13 @@ func runC01(c *vh.Case, spec c01Spec) {
 			sc.Inject(vhm.Resp(req.ID, vhm.InitializeResultJSON("2025-06-18")))
 			return nil
 		}
+		if req.Method == "server/discover" {
+			sc.Inject(vhm.Resp(req.ID, `{"supportedVersions":["2026-07-28","2025-11-25"],"capabilities":{"tools":{},"resources":{"subscribe":true}},"serverInfo":{"name":"scripted","version":"0"}}`))
+			return nil
+		}
+		if req.Method == "subscriptions/listen" {
+			return nil // a stream: never answered
+		}
 		if req.Method != method {
 			sc.Inject(vhm.Resp(req.ID, `{}`))
 			return nil
@@ -240,7 +249,8 @@ func runC01(c *vh.Case, spec c01Spec) {
 
 	ctx := context.Background()
 	var (
-		doCall  func(ctx context.Context, n int) (string, error)
+		doSubscribe func(ctx context.Context, n int) error
+		doCall      func(ctx context.Context, n int) (string, error)
 		doClose func() error
 		doWait  func() error
 		server  *mcp.Server
@@ -254,10 +264,23 @@ func runC01(c *vh.Case, spec c01Spec) {
 			}}
 		}
 		client := mcp.NewClient(&mcp.Implementation{Name: "c", Version: "1"}, copts)
-		cs, err := client.Connect(ctx, sc, &mcp.ClientSessionOptions{ProtocolVersion: "2025-06-18"})
+		cso := &mcp.ClientSessionOptions{ProtocolVersion: "2025-06-18"}
+		if spec.Modern {
+			cso = nil
+		}
+		cs, err := client.Connect(ctx, sc, cso)
 		if err != nil {
 			c.Inconclusive("client connect: %v", err)
 			return
+		}
+		if spec.Modern {
+			if v := cs.InitializeResult().ProtocolVersion; v != "2026-07-28" {
+				c.Inconclusive("expected a 2026-07-28 session, got %s", v)
+				return
+			}
+			doSubscribe = func(ctx context.Context, n int) error {
+				return cs.Subscribe(ctx, &mcp.SubscribeParams{URI: fmt.Sprintf("file:///post-%d", n)})
+			}
 		}
 		for i := 0; i < spec.Storm; i++ {
 			sc.Inject(vhm.Req(fmt.Sprintf("storm-%d", i), "sampling/createMessage", `{"maxTokens":1,"messages":[{"role":"user","content":{"type":"text","text":"x"}}]}`))
@@ -379,6 +402,15 @@ func runC01(c *vh.Case, spec c01Spec) {
 	for i := 0; i < spec.PostCalls; i++ {
 		calls.Add(1)
 		go runCall(10000+i, -1, 0)
+	}
+	if doSubscribe != nil {
+		// opening a stream is a call too: on a terminated session it must fail at once, naming the reason
+		for i := 0; i < 1+spec.PostCalls; i++ {
+			n := 20000 + i
+			log.Add("call-start", "n", n)
+			err := doSubscribe(ctx, n)
+			log.Add("call-return", "n", n, "outcome", classifyC01("subscribed", err), "err", errText(err))
+		}
 	}
 	calls.Wait()
 	bg.Wait()
@@ -521,6 +553,11 @@ func decideC01(c *vh.Case, spec c01Spec) {
 	for i := 0; i < spec.PostCalls; i++ {
 		all = append(all, c01Call{N: 10000 + i, CancelAt: -1})
 	}
+	if spec.Modern && spec.Side == "client" {
+		for i := 0; i < 1+spec.PostCalls; i++ {
+			all = append(all, c01Call{N: 20000 + i, CancelAt: -1}) // Subscribe calls after termination
+		}
+	}
 	for _, cs := range all {
 		n := cs.N
 		st, ok := start[n]
@@ -539,6 +576,10 @@ func decideC01(c *vh.Case, spec c01Spec) {
 		}
 		r := rs[0]
 		outcome := fstr(r, "outcome")
+		if n >= 20000 && strings.HasPrefix(outcome, "ok:") {
+			c.Violate("not-identified-as-closed", "Subscribe (call %d) started at %dus, after the session had terminated (Wait returned at %dus), reported success", n, st.T, waitRet)
+			continue
+		}
 		// a payload must always be the call's own
 		if strings.HasPrefix(outcome, "ok:") && outcome != expectOK(n) {
 			c.Violate("foreign-response", "call %d completed with payload %q (expected its own %q)", n, outcome, expectOK(n))
